@@ -106,6 +106,10 @@ func makeBackendInstTTL(kind string, strategy cache.EvictionStrategy, cfgTTL tim
 				ttl = -time.Minute
 			}
 
+			if cfgTTL == cache.UnlimitedTTL {
+				ttl = 0 // a fresh UnlimitedTTL cache: no explicit expiration has been set yet
+			}
+
 			_ = be.Write(ttlCtx(ttl), k, "init")
 		}
 
